@@ -29,7 +29,6 @@ from pynguin.instrumentation.version.common import (
     InstrumentationMethodCall,
     InstrumentationSetupAction,
     after,
-    before,
 )
 from pynguin.instrumentation.version.python3_12 import (
     ACCESS_NAMES,
@@ -338,7 +337,7 @@ class CheckedCoverageInstrumentation(python3_12.CheckedCoverageInstrumentation):
             )
             return
 
-        node.basic_block[after(instr_index)] = self.generate_instructions(
+        node.basic_block[node.after(instr_index)] = self.generate_instructions(
             cfg, code_object_id, instr, instr_original_index, node
         )
 
@@ -392,7 +391,8 @@ class CheckedCoverageInstrumentation(python3_12.CheckedCoverageInstrumentation):
         argument = instr.arg if isinstance(instr.arg, int) and instr.arg != UNSET else None
 
         # Instrumentation before the original instruction
-        node.basic_block[before(instr_index)] = self.instructions_generator.generate_instructions(
+        position = node.before(instr_index)
+        node.basic_block[position] = self.instructions_generator.generate_instructions(
             InstrumentationSetupAction.NO_ACTION,
             InstrumentationMethodCall(
                 self._subject_properties.instrumentation_tracer,
